@@ -5,6 +5,7 @@ import (
 	"fmt"
 	"github.com/bilibili/gengine/context"
 	"reflect"
+	"strings"
 )
 
 var TypeMap = map[string]string{
@@ -198,6 +199,11 @@ func (e *Expression) Evaluate(dc *context.DataContext, Vars map[string]reflect.V
 					break
 				}
 
+				if !strings.HasPrefix(l, "float") && !strings.HasPrefix(r, "float") {
+					//both are integers: compare them exactly, float64 can not tell apart values above 2^53
+					ll, rr = float64(compareInteger(flv, frv)), 0
+				}
+
 				switch e.ComparisonOperator {
 				case "==":
 					b = reflect.ValueOf(ll == rr)
@@ -267,4 +273,45 @@ LAST:
 		}
 	}
 	return reflect.ValueOf(nil), errors.New(fmt.Sprintf("line %d, column %d, code: %s, evaluate Expression err!", e.LineNum, e.Column, e.Code))
+}
+
+// compareInteger compares two values of signed or unsigned integer kind exactly,
+// it returns -1 when l < r, 0 when l == r, 1 when l > r
+func compareInteger(l, r reflect.Value) int {
+	lSigned := l.Kind() >= reflect.Int && l.Kind() <= reflect.Int64
+	rSigned := r.Kind() >= reflect.Int && r.Kind() <= reflect.Int64
+
+	if lSigned && rSigned {
+		if l.Int() < r.Int() {
+			return -1
+		}
+		if l.Int() > r.Int() {
+			return 1
+		}
+		return 0
+	}
+
+	if lSigned != rSigned {
+		if lSigned {
+			if l.Int() < 0 {
+				return -1
+			}
+			return compareUint(uint64(l.Int()), r.Uint())
+		}
+		if r.Int() < 0 {
+			return 1
+		}
+		return compareUint(l.Uint(), uint64(r.Int()))
+	}
+	return compareUint(l.Uint(), r.Uint())
+}
+
+func compareUint(l, r uint64) int {
+	if l < r {
+		return -1
+	}
+	if l > r {
+		return 1
+	}
+	return 0
 }
